@@ -23,7 +23,16 @@ def main():
         seed = 0
     mod = importlib.import_module('mc.checks.' + args.prop.lower())
     t0 = time.time()
-    rc = mod.main(args.tier, seed, t0)
+    try:
+        rc = mod.main(args.tier, seed, t0)
+    except SystemExit:
+        raise
+    except BaseException:  # noqa - an internal error of the harness is never reported as a violation (exit 1)
+        import traceback
+        traceback.print_exc()
+        print('INTERNAL-ERROR: the check itself failed', file=sys.stderr)
+        sys.stdout.flush()
+        sys.exit(2)
     sys.stdout.flush()
     sys.exit(rc)
 
